@@ -791,6 +791,31 @@ class FnTr:
             if name in ('is_some', 'is_none', 'is_ok', 'is_err') and not e.args:
                 pos = {'is_some': 'Some _', 'is_none': 'None', 'is_ok': 'Ok _', 'is_err': 'Err _'}[name]
                 return "(match %s with %s => true | _ => false end)" % (r, pos), T_BOOL
+            if name in ('map', 'map_err') and len(e.args) == 1 and e.args[0].kind == 'path':
+                # only with a constructor as the function: `.map(Some)`, `.map(Ok)`, `.map_err(Wrapper)`
+                cn = e.args[0].segs[-1]
+                ctor, rty = None, None
+                argty = (base[2][1] if (base[1] == 'Result' and name == 'map_err') else base[2][0])
+                if cn == 'Some' and len(e.args[0].segs) == 1:
+                    ctor, rty = 'Some', ('adt', 'Option', (argty,))
+                if ctor is None:
+                    self.err("`.%s(..)` is only supported with `Some` as the function" % name, e)
+                if base[1] == 'Result' and name == 'map':
+                    return "(match %s with Ok x => Ok (%s x) | Err x => Err x end)" % (r, ctor), ('adt', 'Result', (rty, base[2][1]))
+                if base[1] == 'Result' and name == 'map_err':
+                    return "(match %s with Ok x => Ok x | Err x => Err (%s x) end)" % (r, ctor), ('adt', 'Result', (base[2][0], rty))
+                if base[1] == 'Option' and name == 'map':
+                    return "(match %s with Some x => Some (%s x) | None => None end)" % (r, ctor), ('adt', 'Option', (rty,))
+                self.err("unsupported `.%s`" % name, e)
+            if name == 'ok' and not e.args and base[1] == 'Result':
+                return "(match %s with Ok x => Some x | Err _ => None end)" % r, ('adt', 'Option', (base[2][0],))
+            if name == 'unwrap_or' and len(e.args) == 1:
+                dflt, _ = self.expr(e.args[0], base[2][0])
+                pos = 'Some x' if base[1] == 'Option' else 'Ok x'
+                return "(match %s with %s => x | _ => %s end)" % (r, pos, dflt), base[2][0]
+            if name == 'ok_or' and len(e.args) == 1 and base[1] == 'Option':
+                er, te = self.expr(e.args[0])
+                return "(match %s with Some x => Ok x | None => Err %s end)" % (r, er), ('adt', 'Result', (base[2][0], te))
             if name == 'unwrap' and not e.args:
                 pos = 'Some x' if base[1] == 'Option' else 'Ok x'
                 v = self.emit_val("(match %s with %s => cret x | _ => cpanic end)" % (r, pos))
